@@ -65,7 +65,7 @@ def _config(draw):
 
 def strategy(ctx, shard=0):
     if shard % 2 == 0:
-        return em.st_program(max_points=6, max_edits=ctx.pick(25, 50), samplers=False, forks=True).map(lambda c: dict(c, kind="edit"))
+        return em.st_program(max_points=6, max_edits=ctx.pick(25, 50), samplers=False, forks=True, big=(shard % 8 == 4)).map(lambda c: dict(c, kind="edit"))
     return _config()
 
 
